@@ -9,7 +9,7 @@ the property's inequalities are evaluated on the code's own floats.
 import json
 
 from harness.core import R, close, pmap, MachineryError
-from harness.frame_common import (METRICS, GLABEL, CLABEL, frame_cfg, metric_fns, order_for, concrete, lookup, isnan)
+from harness.frame_common import (METRICS, SIGNED, GLABEL, CLABEL, frame_cfg, metric_fns, order_for, concrete, lookup, isnan)
 
 METHODS = ["between_groups", "to_overall"]
 
@@ -80,8 +80,9 @@ def _one(args):
                                     vals[("r", key)] = rv
                                     _cmp(out, {"api": "difference", "method": method, "errors": errors, **base_sig}, dv, exp["diff_" + key][c - 1],
                                          f"difference({method},{errors})[{m},{cv}]", detail)
-                                    _cmp(out, {"api": "ratio", "method": method, "errors": errors, **base_sig}, rv, exp["ratio_" + key][c - 1],
-                                         f"ratio({method},{errors})[{m},{cv}]", detail)
+                                    if not (m in SIGNED and exp["ratio_" + key][c - 1][1] == 0):      # signed metric with a zero denominator: not specified
+                                        _cmp(out, {"api": "ratio", "method": method, "errors": errors, **base_sig}, rv, exp["ratio_" + key][c - 1],
+                                             f"ratio({method},{errors})[{m},{cv}]", detail)
                                     nev += 2
                                 # the "hence" clauses on the code's own floats
                                 eps = 1e-12
@@ -91,11 +92,11 @@ def _one(args):
                                     bad.append("difference < 0")
                                 for k in ("b", "o"):
                                     rv = vals[("r", k)]
-                                    if not isnan(rv) and not (-eps <= rv <= 1 + eps):
+                                    if m not in SIGNED and not isnan(rv) and not (-eps <= rv <= 1 + eps):
                                         bad.append("ratio outside [0,1]")
                                 if not (db <= 2 * do + eps):
                                     bad.append("between_groups difference > 2 * to_overall difference")
-                                if m in ("sel", "acc", "zol") and not (do <= db + eps):
+                                if m in ("sel", "acc", "zol", "smean") and not (do <= db + eps):
                                     bad.append("to_overall difference > between_groups difference for a weighted-mean metric")
                                 if abs((gmax - gmin) - db) > 1e-12:
                                     bad.append("difference(between_groups) != group_max - group_min")
